@@ -11,6 +11,7 @@ import (
 	"os/exec"
 	"path/filepath"
 	"runtime/debug"
+	"runtime/pprof"
 	"sort"
 	"strings"
 	"sync"
@@ -201,6 +202,8 @@ func addStats(a, b smt.Stats) smt.Stats {
 	a.Unknown += b.Unknown
 	a.Errors += b.Errors
 	a.Time += b.Time
+	a.ValuesTime += b.ValuesTime
+	a.SendTime += b.SendTime
 	if b.MaxQuery > a.MaxQuery {
 		a.MaxQuery = b.MaxQuery
 	}
@@ -251,6 +254,12 @@ func goEnv() []string {
 
 // Worker is the entry point of "vcheck worker job.json result.json".
 func Worker(jobFile, resFile string) {
+	if pf := os.Getenv("GOSYM_CPUPROFILE"); pf != "" {
+		if f, err := os.Create(pf); err == nil {
+			pprof.StartCPUProfile(f)
+			defer pprof.StopCPUProfile()
+		}
+	}
 	debug.SetGCPercent(400) // memory is plentiful; the interpreter allocates many short-lived values
 	data, err := os.ReadFile(jobFile)
 	if err != nil {
